@@ -90,6 +90,14 @@ def decide(src_or_tree, transformer, N, res, label, rtypes=None, sigs=None, allo
             res.violations.append(dict(engine="T", transformer=transformer, program=src, N=N, kind="output cannot be unparsed and compiled (%s)" % why, label=label,
                                        output_dump=ast.dump(P2)[:600], compile_check=True))
             return "violation"
+    if transformer == "aggregate":
+        # structural half of the claim: every shortcut call (one positional argument, no keyword) is lowered, at any depth
+        left = [n.func.id for n in ast.walk(P2) if isinstance(n, ast.Call) and isinstance(n.func, ast.Name) and n.func.id in ("len", "Count", "Sum", "Max", "Min")
+                and len(n.args) == 1 and not n.keywords and not isinstance(n.args[0], ast.Starred)]
+        if left:
+            res.violations.append(dict(engine="T", transformer=transformer, program=src, N=N, kind="shortcut calls left in the lowered query: %s" % sorted(set(left)), label=label,
+                                       output=ast.unparse(P2)[:600]))
+            return "violation"
     rt = dict(gen.RTYPES)
     rt.update(rtypes or {})
     status, d = tv.tv_pair(P, P2, N=N, rtypes=rt, sigs=sigs, stats=res.stats)
